@@ -3,6 +3,7 @@ C41 — property theorems for the model of `fork_processes` (C41/Model.lean).
 All statements quantify over every worker count, budget, supervisor state and scripted OS history.
 -/
 import TornadoModel.C41.Lemmas
+import TornadoModel.C41.Refine
 namespace TornadoModel.C41
 
 /-! ### the invariant: live pids distinct, live ids distinct and within `0..n-1` -/
@@ -593,5 +594,54 @@ theorem classify_agrees_with_posix (st : Nat) (h : st % 128 ≠ 127) :
       simp [h0, h1, h2]
   · have h2 : (Spec.Status.signalled (st % 128) == Spec.Status.exited 0) = false := by simp
     simp [h0, h, h2]
+
+/-! ### refinement: supervisor Model = slot Spec -/
+
+/-- **refines_slot_spec**: for every `n`, restart budget and scripted OS history (`forks` = results of the successive
+`os.fork()` calls, `waits` = the `(pid, status)` results of the successive `os.wait()` calls) in which no status is a
+"stopped/continued" one (`NoStopped`: low 7 bits ≠ 127 — `os.wait()` without options never returns those), the slot
+specification and the model of `fork_processes` agree completely: the Spec is defined (`some`) exactly on the
+histories in which `fork()` never returns the pid of a still un-reaped worker (`runFresh`), and there its whole
+event trace (forks with task ids, waits, log records) and its outcome are those of the model.
+Proof: simulation relation `Rel` between the `children` dict and the slot array (Refine.lean). -/
+theorem refines_slot_spec (n budget : Nat) (forks : List Nat) (waits : List (Nat × Nat)) (hw : NoStopped waits) :
+    Spec.run n budget forks waits =
+      if runFresh n budget forks waits = true then some (run n budget forks waits) else none :=
+  sim_run n budget forks waits hw
+
+/-- the form used by the oracle: whenever the Spec gives an answer, the model's trace and outcome are that answer -/
+theorem refines_slot_spec_some (n budget : Nat) (forks : List Nat) (waits : List (Nat × Nat)) (hw : NoStopped waits)
+    (r : List Ev × Outcome) (h : Spec.run n budget forks waits = some r) : run n budget forks waits = r := by
+  rw [refines_slot_spec n budget forks waits hw] at h
+  split at h
+  · exact Option.some.inj h
+  · cases h
+
+/-- the Spec's domain is exactly the environment assumption of the other theorems -/
+theorem spec_defined_iff_fresh (n budget : Nat) (forks : List Nat) (waits : List (Nat × Nat)) (hw : NoStopped waits) :
+    (Spec.run n budget forks waits).isSome = runFresh n budget forks waits := by
+  rw [refines_slot_spec n budget forks waits hw]
+  cases runFresh n budget forks waits <;> simp
+
+-- non-vacuity: a history with a signal death, a non-zero exit, an unknown pid and a restart; Spec defined
+example : NoStopped [(7, 9), (99, 256), (8, 256), (9, 0), (10, 0)] := by decide
+example : runFresh 2 3 [7, 8, 9, 10] [(7, 9), (99, 256), (8, 256), (9, 0), (10, 0)] = true ∧
+    (run 2 3 [7, 8, 9, 10] [(7, 9), (99, 256), (8, 256), (9, 0), (10, 0)]).2 = .exit0 := by decide
+-- … and one where the scripted OS reuses a live pid: Spec undefined, `runFresh` false
+example : Spec.run 2 3 [7, 8, 8] [(7, 9)] = none ∧ runFresh 2 3 [7, 8, 8] [(7, 9)] = false := by decide
+
+/-- the refinement without the side condition on statuses -/
+def refines_slot_spec_full : Prop :=
+  ∀ (n budget : Nat) (forks : List Nat) (waits : List (Nat × Nat)) (r : List Ev × Outcome),
+    Spec.run n budget forks waits = some r → run n budget forks waits = r
+
+/-- … is false: on the "stopped" status 0x007f the code's test (`WIFSIGNALED` false, `WEXITSTATUS` = 0 → "exited
+normally") and the Spec's POSIX reading (`other`: not a normal exit → restart) differ.  `os.wait()` without
+`WUNTRACED` never returns such a status, so this is a modelling boundary, not a defect of `fork_processes`. -/
+theorem refines_slot_spec_refuted : ¬ refines_slot_spec_full := by
+  intro h
+  have := h 1 1 [7, 8] [(7, 127)] _ rfl
+  revert this
+  decide
 
 end TornadoModel.C41
